@@ -142,6 +142,10 @@ def covered_by_harness(site: str, callers: Dict[str, set], seen: Tuple[str, ...]
     covered when every function that calls the helper is itself harnessed or covered."""
     if site in HANDLED_SITES:
         return True
+    # a function defined inside a harnessed function (a local helper) runs under that harness
+    parts = site.split(".")
+    if any(".".join(parts[:k]) in HANDLED_SITES for k in range(1, len(parts))):
+        return True
     if site in seen or not callers.get(site):
         return False
     return all(covered_by_harness(c, callers, seen + (site,)) for c in callers[site])
